@@ -227,6 +227,7 @@ class Path:
         self.pid = pid
         self.pc: list = []
         self.axioms: list = []
+        self.triggers: dict = {}  # fact id -> term to use as E-matching pattern when the fact is generalised over bound variables
         self.solver = z3.Solver()
         self.solver.set("timeout", ctx.branch_timeout_ms)
         self.counter = 0
@@ -249,7 +250,9 @@ class Path:
     def choose(self, n):
         return self.oracle.choose(n)
 
-    def assume(self, cond, check=True):
+    def assume(self, cond, check=True, trigger=None):
+        if trigger is not None:
+            self.triggers[cond.get_id()] = trigger
         if z3.is_true(cond):
             if check and self._dirty:
                 pass
@@ -268,7 +271,9 @@ class Path:
                 self.dead = True
                 raise PathEnd()
 
-    def add_axiom(self, ax):
+    def add_axiom(self, ax, trigger=None):
+        if trigger is not None:
+            self.triggers[ax.get_id()] = trigger
         self.axioms.append(ax)
         if not _has_quant(ax):
             self.solver.add(ax)
